@@ -55,8 +55,8 @@ def parse_row(cons, fld):
             rank = one
         elif text == "*new_move.dest.file":
             file = one
-        elif "castling_rights.%s" % fld in text and "eq(" in text:
-            pass  # the `was Available` guard (C04.castle-pair)
+        elif "castling_rights.%s" % fld in text and ("eq(" in text or text.startswith("discr(")):
+            pass  # the `was Available` guard (C04.castle-pair), in call form or as the discriminant test
         elif text == "*new_move.is_castles":
             left.append((text, sorted(map(str, vals))))
         else:
